@@ -1,5 +1,6 @@
 import RimuProofs.Lemmas.Run
 import RimuProofs.Lemmas.StepBlock
+import RimuProofs.Lemmas.IdsNodup
 
 /-!
 # C15  Element ids are unique unless a duplicate is reported
@@ -106,6 +107,40 @@ theorem injectId_attr (sid : Str) (ids : List Str) (result attrs : Str) (s : Ses
 theorem header_id_guard (hid : Option Str) (pending : Str) :
     (((hid.getD []) != [] && pending == []) = true) ↔ (hid.getD [] ≠ [] ∧ pending = []) := by
   simp
+
+/-- `options.setOption` touches the registry only through a requested reset, which empties it -/
+theorem setOption_ids (n : Str) (v : PyVal) : Pres IdsNodup (setOption n v) := by
+  apply Pres.start; intro s0 s hcur
+  unfold setOption documentInit
+  wp_go
+  all_goals ids_leaf
+
+theorem updateFrom_ids (o : RenderOptions) : Pres IdsNodup (updateFrom o) := by
+  have h := setOption_ids
+  apply Pres.start; intro s0 s hcur
+  unfold updateFrom
+  wp_go
+  all_goals ids_leaf
+
+/-- **The registry of element ids never holds an id twice.**  Whatever is rendered, with whatever options, in
+    whatever session: if the ids registered so far are pairwise distinct, so are those registered afterwards - the
+    one writer (`injectHtmlAttributes`) registers an id only if it is not in the registry it has just read, and
+    `document.init()` empties it.  Together with `injectId_duplicate` (an id that is not registered is reported) this is
+    the session-level form of "unique unless reported". -/
+theorem registry_stays_duplicate_free (env : Env) (fuel : Nat) (src : Str) (o : RenderOptions) (s : Session)
+    (h : s.ids.Nodup) (out : Str) (s' : Session) (hr : (apiRender env fuel src o).run s = .ok (out, s')) :
+    s'.ids.Nodup := by
+  have hd := (mkRec_ids env fuel).2 src
+  have hu := updateFrom_ids o
+  have key : Pres IdsNodup (apiRender env fuel src o) := by
+    apply Pres.start; intro s0 s hcur
+    unfold apiRender documentInit
+    wp_go
+    all_goals ids_leaf
+  exact key s out s' hr h
+
+/-- ... in particular in every session that a history of `render` calls can reach from a fresh process -/
+theorem fresh_process_registry_is_empty : Session.uninit.ids = [] := rfl
 
 /-- Concrete sessions (kernel evaluation): colliding header slugs take suffixes 2, 3; an explicit id that collides with
     a generated one is reported. -/
